@@ -98,6 +98,8 @@ enum RelevantValidator {
 /// Final specification to generate an arbitrary valid string
 struct Specification {
     has_trim: bool,
+    /// `lowercase` or `uppercase` sanitizer is present
+    has_case_mapping: bool,
     min_len: ValueOrExpr<usize>,
     max_len: ValueOrExpr<usize>,
 }
@@ -146,8 +148,14 @@ fn build_specification(guard: &StringGuard) -> Result<Option<Specification>, syn
                 })
                 .unwrap_or_else(|| min_len.clone() + DEFAULT_LEN_OFFSET);
 
+            // Case mapping may change the number of characters ('ß' -> "SS"), see `gen_arbitrary_char`.
+            let has_case_mapping = sanitizers
+                .iter()
+                .any(|s| matches!(s, StringSanitizer::Lowercase | StringSanitizer::Uppercase));
+
             let spec = Specification {
                 has_trim,
+                has_case_mapping,
                 min_len,
                 max_len,
             };
@@ -205,12 +213,33 @@ fn filter_sanitizers(sanitizers: &[StringSanitizer]) -> Result<Vec<RelevantSanit
     }).collect()
 }
 
+/// Generate an expression that obtains an arbitrary char.
+/// With a `lowercase`/`uppercase` sanitizer in place the generated string must keep its length when
+/// the case is changed, so characters whose lower or upper case form is not a single character
+/// (e.g. 'ß' -> "SS") are replaced.
+fn gen_arbitrary_char(has_case_mapping: bool) -> TokenStream {
+    if has_case_mapping {
+        quote!({
+            let ch: char = u.arbitrary()?;
+            if ch.to_lowercase().count() == 1 && ch.to_uppercase().count() == 1 {
+                ch
+            } else {
+                'a'
+            }
+        })
+    } else {
+        quote!(u.arbitrary()?)
+    }
+}
+
 fn gen_generate_valid_inner_value_with_validators(spec: &Specification) -> TokenStream {
     let Specification {
         has_trim,
+        has_case_mapping,
         min_len,
         max_len,
     } = spec;
+    let arbitrary_char = gen_arbitrary_char(*has_case_mapping);
 
     if *has_trim {
         quote!(
@@ -219,7 +248,7 @@ fn gen_generate_valid_inner_value_with_validators(spec: &Specification) -> Token
             // Generate string `output` that matches the target_len
             let mut output = String::with_capacity(target_len * 2);
             for _ in 0..target_len {
-                let ch: char = u.arbitrary()?;
+                let ch: char = #arbitrary_char;
                 output.push(ch);
             }
             // Make sure that the generated string matches the target_len
@@ -235,7 +264,7 @@ fn gen_generate_valid_inner_value_with_validators(spec: &Specification) -> Token
                         // Try luck one more time: trim the spaces and add another char.
                         // NOTE: This is inefficient, but it's not expected to happen often.
                         output = output.trim().to_string();
-                        let new_char: char = u.arbitrary()?;
+                        let new_char: char = #arbitrary_char;
                         output.push(new_char);
                     }
                     core::cmp::Ordering::Greater => {
@@ -255,7 +284,7 @@ fn gen_generate_valid_inner_value_with_validators(spec: &Specification) -> Token
             // Generate string `output` that matches the target_len
             let mut output = String::with_capacity(target_len * 2);
             for _ in 0..target_len {
-                let ch: char = u.arbitrary()?;
+                let ch: char = #arbitrary_char;
                 output.push(ch);
             }
             // Return the output string
